@@ -30,6 +30,7 @@ type RegCase struct {
 	Resp     string   `json:"resp"`
 	Nested   bool     `json:"nested"`
 	Conflict string   `json:"conflict"`
+	VarFP    string   `json:"varfp"` // rule cases: field path of the template variable ("" = s)
 	Pkg      string   `json:"pkg,omitempty"`
 	Svc      string   `json:"svc,omitempty"`
 	Method   string   `json:"method,omitempty"`
@@ -44,6 +45,7 @@ type RegEv struct {
 	Resp     string   `json:"resp"`
 	Nested   bool     `json:"nested"`
 	Conflict string   `json:"conflict"`
+	VarFP    string   `json:"varfp"`
 	Out      string   `json:"out"`
 	Pb       string   `json:"pb"`
 	Pa       string   `json:"pa"`
@@ -254,7 +256,7 @@ func attempt(onto string, newSvc ServiceSpec, routedReq [2]string) (out, errText
 
 func runRegCase(c RegCase, seed int64) RegEv {
 	r := newRng(seed, c.ID, 77)
-	ev := RegEv{Case: c.ID, X: c.X, Onto: c.Onto, Body: c.Body, Resp: c.Resp, Nested: c.Nested, Conflict: c.Conflict}
+	ev := RegEv{Case: c.ID, X: c.X, Onto: c.Onto, Body: c.Body, Resp: c.Resp, Nested: c.Nested, Conflict: c.Conflict, VarFP: c.VarFP}
 	if ev.X == nil {
 		ev.X = []string{}
 	}
@@ -280,6 +282,9 @@ func runRegCase(c RegCase, seed int64) RegEv {
 	case "rule":
 		ev.Ev = "RegRule"
 		rule := httpRule("POST", "/rule/{s}")
+		if c.VarFP != "" {
+			rule = httpRule("POST", "/rule/{"+c.VarFP+"}")
+		}
 		rule.Body = c.Body
 		rule.ResponseBody = c.Resp
 		req := [2]string{"POST", "/rule/p1"}
